@@ -183,5 +183,8 @@ def run(ctx):
             w = check_bic(rec, b, strict, "registry")
             rec.case("registry-accepted" if w else "registry-rejected", (b, strict))
     ctx.hyp_explore(text_strategy(bics), hyp_body, ctx.pick(5000, 200000), name="C04-text")
+    if not ctx.quick:
+        from ..engines import fuzz
+        fuzz.run_campaign(ctx.rec, "bic-c04", 150000, ctx.seed, ctx.prop)   # secondary engine: coverage-guided, oracle inside
     ctx.require_classes("base-accepted", "replace-ascii", "replace-nonascii", "country-accepted", "country-rejected",
                         "length-trunc", "hyp-near", "hyp-text", "registry-accepted")
